@@ -239,7 +239,7 @@ fn one_concurrent_change(run: &Run, case: u64) {
     let mut victims: Vec<(String, &'static str)> = Vec::new();
     for v in &later {
         if victims.len() < 3 && rng.chance(1, 2) {
-            victims.push((v.clone(), *rng.pick(&["truncate-half", "truncate-0", "truncate-1", "extend", "replace-longer", "remove", "replace-same-size"])));
+            victims.push((v.clone(), *rng.pick(&["truncate-half", "truncate-0", "truncate-1", "extend", "replace-longer", "remove", "replace-same-size", "becomes-directory", "becomes-directory"])));
         }
     }
     if victims.is_empty() {
@@ -262,6 +262,8 @@ fn one_concurrent_change(run: &Run, case: u64) {
                         "extend" => std::fs::write(&p, [old.clone(), vec![b'+'; 1 + old.len()]].concat()),
                         "replace-longer" => std::fs::write(&p, vec![b'R'; old.len() * 3 + 70]),
                         "replace-same-size" => std::fs::write(&p, vec![b'S'; old.len()]),
+                        // opening still works, reading fails
+                        "becomes-directory" => std::fs::remove_file(&p).and_then(|()| std::fs::create_dir(&p)),
                         _ => std::fs::remove_file(&p),
                     };
                 }
@@ -288,6 +290,31 @@ fn one_concurrent_change(run: &Run, case: u64) {
     }
     let mut sources = BTreeMap::new();
     sources.insert(0u32, quiet);
+    // the files that held still are recorded with their own bytes (an address can be inside its
+    // block and of the right length and still be someone else's bytes)
+    if let Some(band) = raw.bands.get(&0) {
+        for e in band.own_entries() {
+            if e.kind != "File" || victims.iter().any(|(v, _)| v == &e.apath) {
+                continue;
+            }
+            let Some(node) = snap.get(&e.apath) else { continue };
+            match raw.resolve(e) {
+                Ok(bytes) if bytes == node.content => run.count("still_files_resolved_to_their_own_bytes", 1),
+                Ok(bytes) => {
+                    run.violation(
+                        "content-while-source-changes:entry-resolves-to-wrong-bytes",
+                        format!("{desc}: {} (untouched) resolves to {} bytes (fnv {:x}), the file has {} bytes (fnv {:x})", e.apath, bytes.len(), fnv(&bytes), node.content.len(), fnv(&node.content)),
+                        replay,
+                    );
+                    return;
+                }
+                Err(why) => {
+                    run.violation("content-while-source-changes:dangling-or-short-reference", format!("{desc}: {}: {why}", e.apath), replay);
+                    return;
+                }
+            }
+        }
+    }
     match check_format(&raw, &sources) {
         Ok(c) => {
             run.count("entries_checked", c.entries);
@@ -426,7 +453,7 @@ pub fn run(tier: Tier, replay: Option<Value>) -> i32 {
         partial_writes(&run);
     }
     run.finish(
-        "histories as in C02 with options drawn to produce every layout (1-entry hunks, 1-byte blocks, small-file cap 0/1, hunks overflowing through a combined flush), plus one band of 10 051 one-entry hunks (crossing i/00001); plus four backups run in a child process under a file-size limit of 60-700 bytes (writes that fail part-way), each followed by a backup without the limit; plus backups during which the source changes underneath (from the change callback of one entry, 1-3 files sorting after it -- already listed and stat'ed, not yet read -- are truncated, emptied, extended, replaced or removed: the size clause is then waived for those files, everything else must hold); after every archive-changing step, including interrupted backups, the harness's own reader (std::fs + raw Snappy + serde_json::Value + BLAKE2b) checks: band directory names, head and tail fields, tail hunk count == hunk files, hunk files at their canonical paths numbered 0..m-1, each hunk decodes and is non-empty, apaths valid and strictly increasing within and across hunks, kinds, addrs only on files with lengths summing to the file's size in that version's source snapshot, target exactly on symlinks, every block under its first three hex digits and named by the BLAKE2b-512 of its content, every address inside its block. Non-trivial = history producing bands with different hunk counts.",
+        "histories as in C02 with options drawn to produce every layout (1-entry hunks, 1-byte blocks, small-file cap 0/1, hunks overflowing through a combined flush), plus one band of 10 051 one-entry hunks (crossing i/00001); plus four backups run in a child process under a file-size limit of 60-700 bytes (writes that fail part-way), each followed by a backup without the limit; plus backups during which the source changes underneath (from the change callback of one entry, 1-3 files sorting after it -- already listed and stat'ed, not yet read -- are truncated, emptied, extended, replaced, removed or turned into directories: the size clause is then waived for those files, everything else must hold, and every file that held still must be recorded with its own bytes); after every archive-changing step, including interrupted backups, the harness's own reader (std::fs + raw Snappy + serde_json::Value + BLAKE2b) checks: band directory names, head and tail fields, tail hunk count == hunk files, hunk files at their canonical paths numbered 0..m-1, each hunk decodes and is non-empty, apaths valid and strictly increasing within and across hunks, kinds, addrs only on files with lengths summing to the file's size in that version's source snapshot, target exactly on symlinks, every block under its first three hex digits and named by the BLAKE2b-512 of its content, every address inside its block. Non-trivial = history producing bands with different hunk counts.",
         &["doc/format.md says the address length key is 'length'; conserve writes and reads 'len' — the reader follows the code (noted in DESIGN.md)", "snap, serde_json, blake2-rfc trusted"],
         None,
         &[("archive_states_checked", 100), ("states_after_interrupted_backup", 5), ("addresses_checked", 500), ("bands_with_more_than_10000_hunks", 1), ("backups_with_source_changing_underneath", 100), ("backups_under_a_file_size_limit", 3), ("victims_recorded_with_a_size_other_than_the_listed_one", 10)],
